@@ -83,14 +83,17 @@ theorem allPres_succ (G : GlobalRel R) (prog : Program) (n : Nat) (ih : AllPres 
       | _ => exact h1
   · -- runStepGroup
     intro pipe g rs s
+    by_cases hg0 : g = ""
+    · -- `assert step_group_name`
+      subst hg0; rw [runStepGroup_empty_name]; exact rel_raiseNew G _ _ _
     cases hgs : getPipelineSteps prog pipe g with
     | error e =>
       -- a group body without a length: `get_pipeline_steps` raises, nothing ran
       obtain ⟨en, em⟩ := e
-      rw [runStepGroup_unsized n prog pipe g rs s en em hgs]
+      rw [runStepGroup_unsized n prog pipe g rs s en em hgs hg0]
       exact rel_raiseNew G _ _ _
     | ok ss =>
-      rw [runStepGroup_eq' n prog pipe g rs s ss hgs]
+      rw [runStepGroup_eq' n prog pipe g rs s ss hgs hg0]
       generalize hr : runSteps n prog pipe ss s = p
       obtain ⟨s1, r⟩ := p
       have h1 : R s s1 := by have := hSteps pipe ss s; rw [hr] at this; exact this
@@ -159,7 +162,38 @@ theorem allPres_succ (G : GlobalRel R) (prog : Program) (n : Nat) (ih : AllPres 
     cases hp : prog.find? pi.name with
     | none => rw [runPipeline_notFound n prog pi s hp]; exact rel_raiseNew G _ _ _
     | some pd =>
-      rw [runPipeline_eq n prog pi pd s hp]
+      by_cases hgb : pi.groupsBad = true
+      · -- `groups` cannot be iterated: the TypeError, then the failure group
+        rw [runPipeline_groupsBad n prog pi pd s hp hgb]
+        simp only []
+        refine G.scope s _ pi.name ?_
+        generalize hr : prepareContext pd pi { s with stack := pi.name :: s.stack } = p
+        obtain ⟨s1, r⟩ := p
+        have h1 : R { s with stack := pi.name :: s.stack } s1 := by
+          have := prepareContext_rel G pd pi { s with stack := pi.name :: s.stack }; rw [hr] at this; exact this
+        cases r with
+        | err e h =>
+          simp only []
+          generalize hf : runFailureGroup n prog pi.name pi.failure s1 = q
+          obtain ⟨s2, r2⟩ := q
+          have h2 : R s1 s2 := by have := hFail pi.name pi.failure s1; rw [hf] at this; exact this
+          cases r2 <;> exact G.trans h1 h2
+        | ok =>
+          simp only []
+          have h1' : R s1 (raiseNew s1 "TypeError" "~object is not iterable").1 := rel_raiseNew G _ _ _
+          by_cases hf0 : hasFailureGroup pi.failure = true
+          · simp only [hf0, if_true]
+            generalize hf : runFailureGroup n prog pi.name pi.failure
+              (raiseNew s1 "TypeError" "~object is not iterable").1 = q
+            obtain ⟨s2, r2⟩ := q
+            have h2 : R (raiseNew s1 "TypeError" "~object is not iterable").1 s2 := by
+              have := hFail pi.name pi.failure (raiseNew s1 "TypeError" "~object is not iterable").1
+              rw [hf] at this; exact this
+            cases r2 <;> exact G.trans h1 (G.trans h1' h2)
+          · simp only [hf0]; exact G.trans h1 h1'
+        | _ => exact h1
+      have hgb : pi.groupsBad = false := by simpa using hgb
+      rw [runPipeline_eq n prog pi pd s hp hgb]
       simp only []
       refine G.scope s _ pi.name ?_
       generalize hr : prepareContext pd pi { s with stack := pi.name :: s.stack } = p
@@ -200,7 +234,7 @@ theorem allPres_succ (G : GlobalRel R) (prog : Program) (n : Nat) (ih : AllPres 
           · exact rel_ctx G _ _
         · exact G.refl _
       · -- own context
-        generalize hpi : PipeInst.mk a.name a.groups a.success a.failure (!a.skipParse) a.pipeArg = pi
+        generalize hpi : PipeInst.mk a.name a.groups a.success a.failure (!a.skipParse) a.pipeArg a.groupsBad = pi
         generalize hr : runPipeline n prog pi { s with ctx := a.args.getD [], stack := [] } = p
         obtain ⟨c1, r1⟩ := p
         have h1 : R { s with ctx := a.args.getD [], stack := [] } c1 := by
@@ -240,7 +274,7 @@ def stackRel (a b : St) : Prop := b.stack = a.stack
 theorem stackRel_global : GlobalRel stackRel where
   refl := fun _ => rfl
   trans := fun h1 h2 => Eq.trans h2 h1
-  frame := fun _ _ h _ => h
+  frame := fun _ _ h _ _ _ _ => h
   emit := fun _ _ => rfl
   scope := by
     intro a b n h
@@ -257,10 +291,31 @@ theorem tracePrefixRel_global : GlobalRel tracePrefixRel where
   trans := by
     rintro a b c ⟨e1, h1⟩ ⟨e2, h2⟩
     exact ⟨e1 ++ e2, by rw [h2, h1, List.append_assoc]⟩
-  frame := fun _ _ _ h => ⟨[], by rw [h, List.append_nil]⟩
+  frame := fun _ _ _ h _ _ _ => ⟨[], by rw [h, List.append_nil]⟩
   emit := fun _ ev => ⟨[ev], rfl⟩
   scope := fun _ _ _ h => h
   own := fun _ _ _ h => h
+
+/-- everything that is global to a run only ever grows: the probe trace, the virtual clock's record of
+    sleeps and the ghost log of escapes by appending, the exception counter by counting up; and the
+    pipeline stack is what it was. -/
+def GrewRel (a b : St) : Prop :=
+  a.trace <+: b.trace ∧ a.sleeps <+: b.sleeps ∧ a.nextExc ≤ b.nextExc ∧ a.escapes <+: b.escapes ∧ b.stack = a.stack
+
+theorem grewRel_global : GlobalRel GrewRel where
+  refl := fun _ => ⟨List.prefix_refl _, List.prefix_refl _, Nat.le_refl _, List.prefix_refl _, rfl⟩
+  trans := by
+    rintro a b c ⟨h1, h2, h3, h4, h5⟩ ⟨g1, g2, g3, g4, g5⟩
+    exact ⟨h1.trans g1, h2.trans g2, Nat.le_trans h3 g3, h4.trans g4, g5.trans h5⟩
+  frame := fun _ _ hs ht h1 h2 h3 => ⟨by rw [ht]; exact List.prefix_refl _, h1, h2, h3, hs⟩
+  emit := fun _ _ => ⟨List.prefix_append _ _, List.prefix_refl _, Nat.le_refl _, List.prefix_refl _, rfl⟩
+  scope := by
+    rintro a b n ⟨h1, h2, h3, h4, h5⟩
+    refine ⟨h1, h2, h3, h4, ?_⟩
+    show b.stack.drop 1 = a.stack
+    have : b.stack = n :: a.stack := h5
+    rw [this]; rfl
+  own := fun _ _ _ ⟨h1, h2, h3, h4, _⟩ => ⟨h1, h2, h3, h4, rfl⟩
 
 /-- the depth of the stack after = before, and the stack below the top entry is untouched
     (both consequences of `stackRel`; kept as the form the pype statements use) -/
